@@ -211,12 +211,21 @@ func resolveOverloadedFun(env *Env, call *ast.CallExpr, fnName string, args []*T
 //goland:noinspection SpellCheckingInspection
 func inferFun(f *FunTy, args []*Type) *FunTy {
 	// 1. 构造 psuido fun
+	// type variables are identified by name and a type parameter of f may carry any
+	// name, also one that looks like a generated one: fresh means fresh for f
+	fresh := func(name string) *Type {
+		for {
+			if v := TyVar(name); freeFrom(&f.Type, v.TyVar()) {
+				return v
+			}
+		}
+	}
 	sx := make([]*Type, len(args))
 	for i := 0; i < len(args); i++ {
-		sx[i] = TyVar("s")
+		sx[i] = fresh("s")
 	}
 	s := Tuple(sx)
-	t := TyVar("t")
+	t := fresh("t")
 	psuidoFun := Fun(f.Name, []*Type{s}, t)
 
 	// 2. 需要被 infer 的 fun
